@@ -137,6 +137,14 @@ macro_rules! slice_held {
         }
     };
 }
+slice_held!([LeafAcc<'g, WG>; 2], true);
+slice_held!([LeafAcc<'g, RG>; 2], true);
+slice_held!([LeafAcc<'g, DM>; 2], false);
+slice_held!([LeafAcc<'g, DR>; 2], false);
+slice_held!([LeafAcc<'g, WG>; 3], true);
+slice_held!([LeafAcc<'g, RG>; 3], true);
+slice_held!([LeafAcc<'g, DM>; 3], false);
+slice_held!([LeafAcc<'g, DR>; 3], false);
 slice_held!(happylock::lockable::GuardSlice<LeafAcc<'g, WG>>, true);
 slice_held!(happylock::lockable::GuardSlice<LeafAcc<'g, RG>>, true);
 slice_held!(Box<[LeafAcc<'g, DM>]>, false);
@@ -182,6 +190,14 @@ pub trait TargetApi {
         Err(g)
     }
     fn send_read_guard<'a>(g: Self::Rg<'a>) -> Result<Box<dyn Opaque + Send + 'a>, Self::Rg<'a>> {
+        Err(g)
+    }
+    /// consume the guard by value through `IntoIterator` (if the guard type offers that) and
+    /// keep the items
+    fn take_apart<'a>(g: Self::G<'a>) -> Result<Vec<Box<dyn Opaque + 'a>>, Self::G<'a>> {
+        Err(g)
+    }
+    fn take_apart_read<'a>(g: Self::Rg<'a>) -> Result<Vec<Box<dyn Opaque + 'a>>, Self::Rg<'a>> {
         Err(g)
     }
     fn lock<'a>(&'a self, key: ThreadKey) -> Self::G<'a>;
@@ -434,6 +450,16 @@ macro_rules! coll_api {
                 use crate::caps::CapNo as _;
                 crate::caps::cap::<LockGuard<<$child as happylock::lockable::Sharable>::ReadGuard<'a>>>().boxed_opaque(g)
             }
+            fn take_apart<'a>(g: Self::G<'a>) -> Result<Vec<Box<dyn Opaque + 'a>>, Self::G<'a>> {
+                #[allow(unused_imports)]
+                use crate::caps::CapNo as _;
+                crate::caps::cap::<LockGuard<<$child as happylock::lockable::Lockable>::Guard<'a>>>().into_pieces(g)
+            }
+            fn take_apart_read<'a>(g: Self::Rg<'a>) -> Result<Vec<Box<dyn Opaque + 'a>>, Self::Rg<'a>> {
+                #[allow(unused_imports)]
+                use crate::caps::CapNo as _;
+                crate::caps::cap::<LockGuard<<$child as happylock::lockable::Sharable>::ReadGuard<'a>>>().into_pieces(g)
+            }
             type G<'a> = LockGuard<<$child as happylock::lockable::Lockable>::Guard<'a>>;
             type Rg<'a> = LockGuard<<$child as happylock::lockable::Sharable>::ReadGuard<'a>>;
             type D<'a> = <$child as happylock::lockable::Lockable>::DataMut<'a>;
@@ -520,3 +546,5 @@ impl TargetApi for Poisonable<RetryingLockCollection<SB>> {
     poison_api_write!(RetryingLockCollection<SB>);
     poison_api_read!(RetryingLockCollection<SB>);
 }
+coll_api!(BoxedLockCollection<[&'static Leaf; 2]>, [&'static Leaf; 2]);
+coll_api!(RetryingLockCollection<[&'static Leaf; 3]>, [&'static Leaf; 3]);
